@@ -110,6 +110,8 @@ struct CaseSpec
   std::string id;
   int reuse = 1, rt = 400, idle = 0, conc = 0, ct = 200;
   int rep = 0; // 1: when the script of a request is exhausted the peer repeats its last step (default: answers ok)
+  int lat = 0; // leaseAcquireTimeout (ms); > 0: concurrent callers start staggered (caller r + 1 once the request of caller r has
+               // reached the peer or caller r has returned) and a further thread keeps issuing requests to ANOTHER host
   int bo = 1; // back-off divisor: the retry loop's sleeps on the calling thread are shortened by this factor
   std::vector<ReqSpec> reqs;
 };
@@ -151,6 +153,7 @@ static CaseSpec parseCase(const std::string &line)
     if (kv[0] == "conc") c.conc = v;
     if (kv[0] == "bo" && v >= 1) c.bo = v;
     if (kv[0] == "rep") c.rep = v;
+    if (kv[0] == "lat") c.lat = v;
   }
   for (size_t i = 1; i < parts.size(); ++i)
   {
@@ -162,7 +165,7 @@ static CaseSpec parseCase(const std::string &line)
     r.pre = atoi(w[2].c_str());
     if (w.size() >= 4)
       for (auto &s : vf::split(w[3], ';'))
-        if (!s.empty() && s != "stale" && s != "-") r.steps.push_back(parseStep(s));
+        if (!s.empty() && s != "stale" && s != "leaseto" && s != "-") r.steps.push_back(parseStep(s));
     c.reqs.push_back(r);
   }
   return c;
@@ -422,10 +425,28 @@ static Built buildResponse(const std::string &kind, const std::string &variantIn
   if (kind == "ok_http10" || kind == "ok_http10_ka") status = "HTTP/1.0 200 OK";
   if (kind == "ok_500") status = "HTTP/1.1 500 Internal Server Error";
   bool is204 = kind == "ok_204" || ((kind == "ok_surplus" || kind == "ok_latesurplus") && variantIn == "204");
+  bool is304 = variantIn == "304";
   if (is204)
   {
     status = "HTTP/1.1 204 No Content";
     body = "";
+  }
+  if (is304)
+  {
+    status = "HTTP/1.1 304 Not Modified";
+    body = "";
+    is204 = true; // no body, no framing header
+  }
+  if (variantIn == "cl0") body = "", variant = "cl";   // Content-Length: 0
+  bool chunked0 = variantIn == "chunked0";               // a chunked body that consists of the last-chunk only
+  if (chunked0) body = "", chunked = true;
+  if (kind == "ok_conn")
+  {
+    // variant = <0|1>~<field value>, '_' = SP, '^' = HTAB, '&' = continued in a second Connection field line; the driver
+    // does not interpret the value (whether it is a close signal comes with the step: @close / @keep, decided by the model)
+    if (!variantIn.empty() && variantIn[0] == '0') status = "HTTP/1.0 200 OK";
+    variant = "cl";
+    chunked = false;
   }
   h.push_back("Content-Type: text/plain");
   h.push_back("X-Resp: " + std::to_string(r)); // which request this response answers
@@ -433,6 +454,19 @@ static Built buildResponse(const std::string &kind, const std::string &variantIn
   if (kind == "ok_connclose")
     h.push_back(variantIn == "mixed" ? "connection: Close" : variantIn == "list" ? "Connection: keep-alive, close" : "Connection: close");
   if (kind == "ok_http10_ka") h.push_back("Connection: keep-alive");
+  if (kind == "ok_conn")
+  {
+    std::string val;
+    for (size_t i = 2; i < variantIn.size(); ++i)
+    {
+      char ch = variantIn[i];
+      if (ch == '_') val += ' ';
+      else if (ch == '^') val += '\t';
+      else if (ch == '&') val += "\r\nConnection: ";
+      else val += ch;
+    }
+    h.push_back("Connection: " + val);
+  }
   std::string wireBody;
   if (kind == "ok_closedelim")
     wireBody = body; // neither Content-Length nor Transfer-Encoding: the body ends when the server half-closes
@@ -497,7 +531,7 @@ static Built buildResponse(const std::string &kind, const std::string &variantIn
   else if (chunked)
   {
     h.push_back("Transfer-Encoding: chunked");
-    wireBody = "3\r\nhel\r\n2\r\nlo\r\n0\r\n\r\n";
+    wireBody = chunked0 ? "0\r\n\r\n" : "3\r\nhel\r\n2\r\nlo\r\n0\r\n\r\n";
   }
   else
   {
@@ -633,8 +667,11 @@ static void taint(SConn &c, const char *why, int r)
   g_trace.add(ev("STaint").i("c", c.cid).str("why", why).i("r", r));
 }
 
+static std::atomic<int> g_arrived[8]; // the complete request r has reached the scripted server
+static std::atomic<int> g_returned[8];
 static void logReq(SConn &c, int r, long long n, bool full, long long cut = -1)
 {
+  if (full && r >= 1 && r < 8) g_arrived[r].store(1);
   vf::Ev e = ev("SReq");
   e.i("c", c.cid).i("r", r).i("n", n).b("full", full);
   if (cut >= 0) e.i("cut", cut);
@@ -764,6 +801,7 @@ static void respond(SConn &c, int r, const std::string &method)
   Built b = buildResponse(k, ov, head, r);
   std::string out = b.bytes;
   if (k == "ok_connclose" || k == "ok_http10") taint(c, "close_signal", r);
+  if (k == "ok_conn" && st.pos == "close") taint(c, "close_signal", r);
   if (k == "ok_closedelim" && !head) taint(c, "close_delim", r);
   if (k == "ok_split")
   {
@@ -992,6 +1030,53 @@ static int makeListener(int backlog, bool doListen, int &port)
   return fd;
 }
 
+// ------------------------------------------------------------------ another host (lat > 0): answers every request at once
+static int g_otherFd = -1, g_otherPort = 0;
+static std::atomic<int> g_otherDone{0};
+static void otherServerLoop()
+{
+  t_isServer = true;
+  std::vector<int> fds;
+  std::map<int, std::string> in;
+  while (!g_stop.load())
+  {
+    std::vector<pollfd> pf;
+    pf.push_back({g_otherFd, POLLIN, 0});
+    for (int fd : fds) pf.push_back({fd, POLLIN, 0});
+    if (poll(pf.data(), pf.size(), 5) <= 0) continue;
+    if (pf[0].revents & POLLIN)
+    {
+      int fd = accept4(g_otherFd, nullptr, nullptr, SOCK_NONBLOCK | SOCK_CLOEXEC);
+      if (fd >= 0) fds.push_back(fd);
+    }
+    for (size_t j = 1; j < pf.size(); ++j)
+    {
+      if (!(pf[j].revents & (POLLIN | POLLHUP | POLLERR))) continue;
+      int fd = pf[j].fd;
+      char buf[4096];
+      ssize_t k = realRecv()(fd, buf, sizeof buf, MSG_DONTWAIT);
+      if (k == 0 || (k < 0 && errno != EAGAIN && errno != EINTR))
+      {
+        ::close(fd);
+        fds.erase(std::find(fds.begin(), fds.end(), fd));
+        in.erase(fd);
+        break;
+      }
+      if (k < 0) continue;
+      std::string &acc = in[fd];
+      acc.append(buf, (size_t)k);
+      size_t he;
+      while ((he = acc.find("\r\n\r\n")) != std::string::npos)
+      {
+        acc.erase(0, he + 4);
+        static const char resp[] = "HTTP/1.1 200 OK\r\nContent-Length: 2\r\n\r\nok";
+        sendAll(fd, resp, sizeof resp - 1);
+      }
+    }
+  }
+  for (int fd : fds) ::close(fd);
+}
+
 // ------------------------------------------------------------------ one execution
 static std::atomic<int> g_done{0};
 static std::atomic<double> g_callStart[8];
@@ -1056,6 +1141,7 @@ static void doRequest(HttpClient &client, int r)
   }
   double ms = (vf::nowSec() - t0) * 1000.0;
   g_inCall[r].store(0);
+  if (r < 8) g_returned[r].store(1);
   g_trace.add(ev("Ret").i("r", r).str("res", res).i("st", status).i("ms", (long long)ms).i("rt", rtag));
 }
 
@@ -1109,13 +1195,21 @@ static std::string runCase(const CaseSpec &cs)
   if (g_listenFd < 0 || g_serverPort == 0) return "{\"e\":\"HarnessError\",\"what\":\"listen\"}\n";
   fcntl(g_listenFd, F_SETFL, fcntl(g_listenFd, F_GETFL, 0) | O_NONBLOCK);
   g_t0 = vf::nowSec();
-  g_trace.add(ev("Begin").str("x", cs.id).i("reuse", cs.reuse).i("ct", cs.ct).i("rt", cs.rt).i("conc", cs.conc).i("bo", cs.bo));
-  for (int i = 0; i < 8; ++i) g_inCall[i].store(0);
+  g_trace.add(ev("Begin").str("x", cs.id).i("reuse", cs.reuse).i("ct", cs.ct).i("rt", cs.rt).i("conc", cs.conc).i("bo", cs.bo).i("lat", cs.lat));
+  for (int i = 0; i < 8; ++i) g_inCall[i].store(0), g_arrived[i].store(0), g_returned[i].store(0);
+  std::thread *otherP = nullptr;
+  if (cs.lat > 0)
+  {
+    g_otherFd = makeListener(64, true, g_otherPort);
+    if (g_otherFd < 0) return "{\"e\":\"HarnessError\",\"what\":\"listen2\"}\n";
+    fcntl(g_otherFd, F_SETFL, fcntl(g_otherFd, F_GETFL, 0) | O_NONBLOCK);
+    otherP = new std::thread(otherServerLoop);
+  }
   g_on.store(true);
   std::thread *serverP = new std::thread(serverLoop);
   std::thread &server = *serverP;
   std::thread *workerP = new std::thread(
-    [&cs, serverP]
+    [&cs, serverP, otherP]
     {
       std::thread &server = *serverP;
       {
@@ -1124,13 +1218,46 @@ static std::string runCase(const CaseSpec &cs)
         cfg.requestTimeout = std::chrono::milliseconds(cs.rt);
         cfg.reuseConnections = cs.reuse != 0;
         cfg.connectionIdleTimeout = std::chrono::seconds(cs.idle ? 1 : 300);
+        if (cs.lat > 0) cfg.leaseAcquireTimeout = std::chrono::milliseconds(cs.lat);
         HttpClient client(cfg);
         if (cs.conc)
         {
           g_curReq.store(0);
           std::vector<std::thread> ts;
-          for (int r = 1; r <= (int)cs.reqs.size(); ++r) ts.emplace_back([&client, r] { doRequest(client, r); });
+          std::atomic<bool> trafficStop{false};
+          std::thread traffic;
+          if (cs.lat > 0)
+            traffic = std::thread(
+              [&client, &trafficStop]
+              {
+                // other-host traffic on the same client: every finished exchange releases that host's lease
+                std::string url = "http://127.0.0.1:" + std::to_string(g_otherPort) + "/other";
+                std::map<std::string, std::string> hdr;
+                while (!trafficStop.load())
+                {
+                  try
+                  {
+                    auto resp = (client.*rob::performFn())("GET", url, "", hdr, 0);
+                    if (resp.statusCode == 200) g_otherDone++;
+                  }
+                  catch (...)
+                  {
+                  }
+                  usleep(20000);
+                }
+              });
+          for (int r = 1; r <= (int)cs.reqs.size(); ++r)
+          {
+            ts.emplace_back([&client, r] { doRequest(client, r); });
+            if (cs.lat > 0 && r < 8)
+            {
+              double t0 = vf::nowSec();
+              while (!g_arrived[r].load() && !g_returned[r].load() && vf::nowSec() - t0 < 10.0) usleep(500);
+            }
+          }
           for (auto &t : ts) t.join();
+          trafficStop.store(true);
+          if (traffic.joinable()) traffic.join();
         }
         else
           for (int r = 1; r <= (int)cs.reqs.size(); ++r)
@@ -1149,6 +1276,7 @@ static std::string runCase(const CaseSpec &cs)
         std::this_thread::sleep_for(std::chrono::milliseconds(20));
         g_stop.store(true);
         server.join();
+        if (otherP) otherP->join();
         g_on.store(false);
         g_done.store(2);
       }
@@ -1199,7 +1327,7 @@ static std::string runCase(const CaseSpec &cs)
     worker.join();
   else
     worker.detach();
-  g_trace.add(ev("End").b("hung", false));
+  g_trace.add(ev("End").b("hung", false).i("oth", g_otherDone.load()));
   return g_trace.text();
 }
 
